@@ -25,18 +25,40 @@ model: lean PysphVerif.Model.Interp at Float.  The driver gets, per destination
        there by an earlier interpolate of another property, or brought along by
        an array handed to the constructor / update_particle_arrays) and its
        answer is compared bit for bit with `temp_prop` after the call.
+       The handling of explicit target points is tied as well: the coordinate
+       arrays are handed over as N-d numpy arrays in various memory layouts (C,
+       Fortran, axis-permuted, strided slices, negative strides, x/y/z laid
+       out differently); the model's `ravel` of (shape, strides, offset, memory)
+       is compared bit for bit with the coordinates of the target particles in
+       particle order, and the model's un-flattening (`result.shape = self.shape`,
+       `squeeze`) of the per-particle values with the returned array.
 oracle: the property statement evaluated with brute-force sums over ALL source
        particles (and their periodic images, computed here, not by the domain
        manager), independent of model, neighbour structure, ghost machinery and
        of `temp_prop`: the source values are those of the REQUESTED property read
        from the source arrays before the call (0.0 for every particle of an array
        that does not have the property, as the code documents);
+       entry idx of the returned array is judged at the point (x[idx], y[idx],
+       z[idx]) of the arrays the CALLER passed (logical indexing), not at
+       wherever the implementation put target particle number idx;
        tolerance 1e-9 relative to sum |terms| (the statement's "value defined by
        its method" up to rounding): Shepard = weighted mean, inside [min,max] of
        contributing values, constant reproduced, 0.0 where nothing is in range;
        sph/splash/splash_norm = documented sums; order1 reproduces a linear
        field and its gradient where the moment matrix is well conditioned, and
-       for any property returns the solution of the documented moment system.
+       for any property returns the solution of the documented moment system;
+       the volumes m/rho of that system use the summation density computed HERE
+       by brute force over all source particles (Remote-tagged ones included;
+       periodic images with a periodic domain) -- order1 computes the density
+       itself, so about half the order1 histories build their arrays without
+       rho (0.0), and nothing is read back from the rho the implementation left.
+       With a periodic domain (the ghosts' densities are not those of their
+       originals) only what holds for any finite positive volumes is demanded:
+       finite values and reproduction of a constant with zero gradient.
+jobs:  one process per configuration; a soft time budget per job (no new history
+       is started after it, reported) and a hard one (job killed = machinery
+       error): the check cannot hang and a loaded machine shortens the random
+       part instead of stretching the run.
 """
 import json
 import math
@@ -205,10 +227,13 @@ def gen_arrays(rng, cfg, lin, const, psets, prefill=0.0, small=False,
         ntot = {1: rng.randint(15, 40), 2: rng.randint(60, 140),
                 3: rng.randint(150, 260)}[dim]
         if cfg['method'] == 'order1':
-            # the summation density of every ghost is tied too: keep it small
-            ntot = {1: rng.randint(15, 30), 2: rng.randint(40, 70),
+            # the summation density of every ghost is tied too: keep it small,
+            # but with h about the particle spacing (2-D: ~0.1), so that the
+            # moment matrices next to the periodic boundaries are well
+            # conditioned and the order1 oracle has something to say there
+            ntot = {1: rng.randint(15, 30), 2: rng.randint(90, 130),
                     3: rng.randint(100, 140)}[dim]
-            h0 = rng.uniform(0.07, 0.085)
+            h0 = rng.uniform(0.085, 0.1) if dim == 2 else rng.uniform(0.07, 0.085)
     else:
         h0 = rng.uniform(0.9, 1.6) * ntot ** (-1.0 / dim)
         if dim == 3:
@@ -1501,7 +1526,7 @@ def worker(args):
     """one process per configuration; the result goes to a file, the history
     being run is recorded first so that a crash of the real code (segfault in
     the compiled evaluator) can be attributed to a concrete input"""
-    cfg, seed, ncases, extra, outdir, idx = args
+    cfg, seed, ncases, extra, budget, outdir, idx = args
     t0 = time.time()
     rng = random.Random('%d/%s' % (seed, json.dumps(cfg, sort_keys=True)))
     recs = []
@@ -1509,9 +1534,14 @@ def worker(args):
     cur = os.path.join(outdir, 'current-%d.json' % idx)
     try:
         cases = list(extra) + [gen_case(rng, cfg) for _ in range(ncases)]
-        for case in cases:
+        for ci, case in enumerate(cases):
             if os.getppid() != PARENT:      # the check timed out / was killed
                 os._exit(1)
+            if ci >= len(extra) + MIN_RANDOM and time.time() - t0 > budget:
+                # a loaded machine: stop after the soft time budget (the corpus
+                # and the first random histories always run); reported
+                res['skipped'] = len(cases) - ci
+                break
             with open(cur, 'w') as fh:
                 json.dump(case, fh)
             rec = run_case(case, None)
@@ -1530,14 +1560,34 @@ def worker(args):
     os._exit(0)
 
 
-def run_jobs(jobs, outdir, nproc):
+MIN_RANDOM = 4
+
+
+def budgets(tier, njobs, nproc, search=False):
+    """(soft, hard) seconds per configuration job.  soft: the worker starts no
+    new history after it; hard: the job is killed (machinery error, the check
+    never hangs).  Sized so that all waves of jobs end within ~2.5 min (quick) /
+    ~22 min (thorough) even when the machine is so loaded that the budget, not
+    the number of histories, ends the jobs."""
+    waves = max(1, -(-njobs // nproc))
+    total = 150.0 if tier == 'quick' else 1300.0
+    if search:
+        total *= 0.6
+    soft = total / waves
+    return soft, 2.0 * soft + 240.0
+
+
+def run_jobs(jobs, outdir, nproc, hard=None):
     """run worker(job) for every job in its own process, at most nproc at a
     time; returns the list of results (a dict with 'crash' when the process
-    died without a result)"""
+    died without a result).  A job still running `hard` seconds after its start
+    is killed: result with 'timeout'."""
     os.makedirs(outdir, exist_ok=True)
     ctx = mp.get_context('fork')
     pending = list(enumerate(jobs))
     running = {}
+    started = {}
+    timed_out = set()
     results = [None] * len(jobs)
     while pending or running:
         while pending and len(running) < nproc:
@@ -1550,10 +1600,16 @@ def run_jobs(jobs, outdir, nproc):
             pr = ctx.Process(target=worker, args=(job + (outdir, idx),))
             pr.start()
             running[idx] = pr
+            started[idx] = time.time()
         for idx, pr in list(running.items()):
             pr.join(timeout=0.2)
             if pr.is_alive():
-                continue
+                if hard is not None and time.time() - started[idx] > hard:
+                    pr.kill()
+                    pr.join()
+                    timed_out.add(idx)
+                else:
+                    continue
             del running[idx]
             rf = os.path.join(outdir, 'result-%d.json' % idx)
             if os.path.exists(rf):
@@ -1568,6 +1624,8 @@ def run_jobs(jobs, outdir, nproc):
                         case = None
                 results[idx] = {'cfg': jobs[idx][0], 'recs': [], 'wall': 0.0,
                                 'crash': pr.exitcode, 'case': case}
+                if idx in timed_out:
+                    results[idx]['timeout'] = hard
     return results
 
 
@@ -1685,6 +1743,10 @@ def merge(R, results):
     for res in results:
         cfg = res['cfg']
         tag = cfg_tag(cfg)
+        if 'timeout' in res:
+            # machinery trouble, not a verdict: the job was killed
+            raise SystemExit('worker for %s still running after %.0f s: killed; it was on history %s'
+                             % (tag, res['timeout'], json.dumps(res.get('case'))[:2000]))
         if 'crash' in res:
             code = res['crash']
             if code in (-11, -6, -7, -8, -4) and res.get('case') is not None:
@@ -1699,6 +1761,10 @@ def merge(R, results):
             raise SystemExit('worker for %s failed:\n%s' % (tag, res['error']))
         R.count('config:' + tag, len(res['recs']))
         R.note('config %s: %d histories in %.0fs' % (tag, len(res['recs']), res['wall']))
+        if res.get('skipped'):
+            R.count('histories-not-run-time-budget', res['skipped'])
+            R.note('config %s: %d generated histories not run (soft time budget reached)'
+                   % (tag, res['skipped']))
         for rec in res['recs']:
             for d in rec['disagreements']:
                 R.disagree(d['case'], d['model'], d['impl'], d['where'])
@@ -1718,7 +1784,9 @@ def main():
         'arrays whose property sets may differ and which may arrive with a used temp_prop, '
         'then 1-16 operations among interpolate of various properties in sequence / in-place '
         'change + update / update_particle_arrays / set_interpolation_points / set_domain / '
-        'moved points); evaluations = destination points (and, for order1, summation-density '
+        'moved points; explicit points as 1-d to 4-d arrays in C / Fortran / permuted / strided / '
+        'reversed memory layouts; order1 arrays with or without rho, with Remote-tagged particles '
+        'and periodic ghosts); evaluations = destination points (and, for order1, summation-density '
         'values; per interpolate call and source array the staged temp_prop) compared bit for '
         'bit with the model, plus one per history; distinct = distinct history JSON; non-trivial = some '
         'destination point with at least two listed neighbours')
@@ -1726,7 +1794,9 @@ def main():
         rp = json.load(open(a.replay))
         case = rp['case']
         outdir = os.path.join(a.work, 'c14-replay')
-        res = run_jobs([(case['cfg'], 0, 0, [case])], outdir, 1)[0]
+        res = run_jobs([(case['cfg'], 0, 0, [case], 1e9)], outdir, 1, hard=1200.0)[0]
+        if 'timeout' in res:
+            raise SystemExit('replay still running after 1200 s: killed')
         if 'crash' in res:
             print('the history kills the process: exit code %r' % res['crash'])
             sys.exit(1)
@@ -1747,16 +1817,18 @@ def main():
         ncases = int(os.environ['C14_NCASES'])
     if a.broken:
         ncases *= 2
-    jobs = [(cfg, a.seed, ncases, corpus(cfg)) for cfg in cfgs]
-    nproc = min(len(jobs), max(2, (os.cpu_count() or 4) - 1), 16)
+    nproc = min(len(cfgs), max(2, (os.cpu_count() or 4) - 1), 16)
+    soft, hard = budgets(a.tier, len(cfgs), nproc)
+    jobs = [(cfg, a.seed, ncases, corpus(cfg), soft) for cfg in cfgs]
     outdir = os.path.join(a.work, 'c14-results')
-    merge(R, run_jobs(jobs, outdir, nproc))
+    merge(R, run_jobs(jobs, outdir, nproc, hard))
     if a.broken or R.d['disagreements']:
         # wider failing-input search on the real code, same configurations
         # (they are compiled already), other seeds
-        jobs = [(cfg, a.seed + 1000003, ncases * 2, []) for cfg in cfgs]
+        soft, hard = budgets(a.tier, len(cfgs), nproc, search=True)
+        jobs = [(cfg, a.seed + 1000003, ncases * 2, [], soft) for cfg in cfgs]
         before = len(R.d['property_failures'])
-        merge(R, run_jobs(jobs, outdir + '-search', nproc))
+        merge(R, run_jobs(jobs, outdir + '-search', nproc, hard))
         R.d['search'] = {'extra_histories': len(jobs) * ncases * 2,
                          'found': len(R.d['property_failures']) - before}
     R.write(a.out)
